@@ -346,6 +346,27 @@ pub fn run(args: &Args) -> Report {
             StoreKind::Rec => {
                 let rig = Rig::ok(Disc::Full);
                 let mut a = rig.auth(AuthCfg::default());
+                // every fourth history starts with a registration the store refuses (any status byte,
+                // CTAP1- or CTAP2-class): no key and signature may be handed out for it
+                if i % 4 == 1 {
+                    let mut r2 = Rng::derive(args.seed, "c17fault", i);
+                    let code = *r2.pick(&[0x28u8, 0x01, 0x03, 0x7f, 0xf0, 0x2e, 0x45, 0x06]);
+                    rig.store.set_fault(crate::collab::Kind::Save, 0, code);
+                    rep.eval();
+                    let handle = r2.bytes(16);
+                    let case = json!({"index": i, "store": "Rec", "step": "registration the store refuses", "status": code});
+                    rep.nontrivial(fnv(format!("savefault|{code}").as_bytes()));
+                    match catch(|| do_register(&mut a, r2.arr32(), r2.arr32(), &handle)) {
+                        Err((sig, d)) => rep.violate(&format!("u2f register {sig}"), d, case),
+                        Ok(Ok(_)) => rep.violate("u2f registration returned a key and signature although the store refused the credential", format!("store status {code:#04x}"), case),
+                        Ok(Err(_)) => {
+                            rep.count("refused_saves_reported");
+                            if rig.store.snapshot().iter().any(|c| c.id == handle) {
+                                rep.violate("u2f registration failed but the store holds the credential", String::new(), case);
+                            }
+                        }
+                    }
+                }
                 let store = rig.store.clone();
                 history(&mut rep, args.seed, i, kind, &mut a, &move |_| store.snapshot());
                 // "stores a credential for that application": what the store is handed as relying party
